@@ -15,8 +15,24 @@ LEVEL_TEXT = ("The Lean mirror of Resolver.glob (pattern translation to the thre
 LEVEL_NOTE = ("After the fix: commits for D4 ('..' dead end below '**' swallowed by an enclosing wildcard), D6 (identity de-dup) and D8 "
               "(ChildResolverError for an existing child when the rest of the pattern matched nothing). Trusted: Lean kernel, standard "
               "axioms; the mirror; CPython's re for the fragment '.*', '.', escaped literal with flags (?ms) and IGNORECASE on ASCII.")
-THEOREMS = []
-NOT_COVERED = []
+THEOREMS = [
+    ("Anytree.Props.C08.match_iff_WMatch", "full"),
+    ("Anytree.Props.C08.cacheInv_nil", "full"),
+    ("Anytree.Props.C08.matchC_transparent", "full"),
+    ("Anytree.Props.C08.matchC_bounded", "full"),
+    ("Anytree.Props.C08.glob_cache_transparent", "full"),
+    ("Anytree.Props.C08.globRelaxed_eq_denote", "full"),
+    ("Anytree.Props.C08.globRelaxed_eq_spec", "full"),
+    ("Anytree.Props.C08.globStrict_ok_eq_denote", "full"),
+    ("Anytree.Props.C08.globStrict_ok_eq_denote_of_siblingUnique", "full"),
+    ("Anytree.Props.C08.globStrict_ok_subset_denote", "full"),
+    ("Anytree.Props.C08.globStrict_raises_only_at_dead_end", "full"),
+    ("Anytree.Props.C08.denote_preorder", "full"),
+    ("Anytree.Props.C08.denote_nodup", "full"),
+    ("Anytree.Props.C08.denote_leading", "full"),
+    ("Anytree.Props.C08.literalUnique_of_siblingUnique", "full"),
+]
+NOT_COVERED = ["strict mode returns the relaxed list (or raises) is proved for sibling-unique names - the scope the property gives strict mode (duplicates among siblings are quantified for relaxed mode only); with duplicate sibling names behind a wildcard strict glob can return a proper sub-list without raising (globStrict_ok_subset_denote is what holds then; witness r->[a->[b], a], pattern **/a/b); agreement of glob with get on wildcard-free paths is checked by the correspondence run, not proved"]
 PREDICATE_SPEC = True
 RULE = ("shapes up to 5/6 nodes and random shapes up to 8/15 nodes, names from a pool with regex metacharacters, wildcards, quotes, "
         "backslashes, newline, non-ASCII, duplicates among siblings; patterns of up to 4/6 components over names, wildcards, '**', "
@@ -58,6 +74,24 @@ def generate(tier, rng):
         yield c
 
 
+def _sibling_unique(case, ic):
+    key = "_su_%s" % ic
+    if key not in case:
+        nm = {k: v for k, v in case["names"]}
+
+        def ok(node):
+            seen = set()
+            for c in node[1]:
+                n = nm.get(c[0], "None")
+                n = n.upper() if ic else n
+                if n in seen:
+                    return False
+                seen.add(n)
+            return all(ok(c) for c in node[1])
+        case[key] = ok(case["tree"])
+    return case[key]
+
+
 def judge(case, impl, drv):
     if not isinstance(impl, list):
         return False, False
@@ -82,8 +116,11 @@ def judge(case, impl, drv):
                 p_ok = False                     # relaxed: never raises, exactly the denoted nodes
         else:
             if "ok" in r:
-                if r["ok"] != s["ok"]:
-                    p_ok = False                 # strict: the same list …
+                if _sibling_unique(case, q["ignorecase"]):
+                    if r["ok"] != s["ok"]:
+                        p_ok = False             # strict, sibling-unique names: the same list …
+                elif not set(r["ok"]) <= set(s["ok"]):
+                    p_ok = False                 # duplicates among siblings are in scope for relaxed mode only
             elif "err" in r:
                 if not s["may_raise"]:
                     p_ok = False                 # … or a ResolverError, only at a genuine dead end
@@ -101,7 +138,10 @@ def mirror_spec_ok(case, drv):
             if m != {"ok": s["ok"]}:
                 return False
         elif "ok" in m:
-            if m["ok"] != s["ok"]:
+            if _sibling_unique(case, q["ignorecase"]):
+                if m["ok"] != s["ok"]:
+                    return False
+            elif not set(m["ok"]) <= set(s["ok"]):
                 return False
         elif not s["may_raise"]:
             return False
